@@ -534,6 +534,11 @@ func (p *Parser) evaluateValues(ctx context) (evaluatedValues, error) {
 			if returnValuesLength == 0 {
 				return evaluatedValues{}, p.expectedError(fmt.Sprintf(`return value from function "%s"`, funcName), exprToken)
 			}
+
+			// A call that returns several values cannot stand behind other values either (a, b := 1, two()).
+			if returnValuesLength > 1 && len(expressions) > 1 {
+				return evaluatedValues{}, p.expectedError(fmt.Sprintf(`only one return value from function "%s"`, funcName), exprToken)
+			}
 		}
 		// Check if other values follow.
 		if nextToken.Type() != lexer.COMMA {
@@ -3045,7 +3050,7 @@ func (p *Parser) evaluateWrite(ctx context) (Expression, error) {
 		}
 		data := expressions[1]
 
-		if !path.ValueType().IsString() {
+		if !data.ValueType().IsString() {
 			return nil, p.expectedError("data string as second parameter", keywordToken)
 		}
 		var append Expression = BooleanLiteral{false}
